@@ -310,8 +310,10 @@ func TestC15A_RPC(t *testing.T) {
 		stage := 0
 		current = m.name + " " + how
 		busy <- m.name
-		p.run(rt, func() { stage = callRPC(m, args, groupFor(m, how)) })
-		done <- struct{}{}
+		func() {
+			defer func() { done <- struct{}{} }() // also when a violation ends the case
+			p.run(rt, func() { stage = callRPC(m, args, groupFor(m, how)) })
+		}()
 		lbl := []string{"", "rejected:args", "handled"}[stage|btoi(stage == 0)]
 		if lastCrash != nil {
 			lbl = "crashed"
